@@ -52,7 +52,7 @@ class SatCacheMixin:
                 for con in self.constraints:
                     if is_false(And(con.clear_annotations(), added_.clear_annotations())):
                         cached_satness = False
-                        self._cached_unsat_core = (con, added)
+                        self._cached_unsat_core = (con, added_)
                         break
 
         if cached_satness is False:
